@@ -124,6 +124,7 @@ def run_entry_points(d, schema, x, eps):
     return tag
 
 
+CHEAP_KINDS = ("null", "bool", "int", "float", "subschema", "typename", "refstr", "idstr", "regex", "fmtname", "str")
 EPS_CORE = ["is_valid", "iter_errors", "validate"]
 EPS_ALL = EPS_CORE + ["module", "is_valid+fc", "module+fc"]
 
@@ -151,7 +152,7 @@ def single(d, k, kind, position="root", eps="core", exclude=(), small_cat=False)
         # the documented validity predicate, executed for real, *before* the instance is looked at: rejected schemas cost one path
         if not accepted(d, schema_of(v)):
             return False
-        return small(x, 2, 2)
+        return small(x, 1, 1) if small_cat else small(x, 2, 2)
 
     def body(v, x):
         return True, run_entry_points(d, schema_of(v), x, ep_list)
@@ -188,7 +189,7 @@ def pairf(d, k1, kind1, k2, kind2, small_cat=False):
             return False
         if not accepted(d, {k1: vof(d, kind1, v1), k2: vof(d, kind2, v2)}):
             return False
-        return small(x, 2, 2)
+        return small(x, 1, 1) if small_cat else small(x, 2, 2)
 
     def body(v1, v2, x):
         schema = {k1: vof(d, kind1, v1), k2: vof(d, kind2, v2)}
@@ -234,7 +235,7 @@ def conditions(tier, seed, active):
                             timeout=1800, tags=[], witness=[]))
         for k in cand.keywords(d):
             for kind in kinds_for(d, k):
-                if quick and rng.random() < 0.6:
+                if quick and rng.random() < (0.5 if kind in CHEAP_KINDS else 0.8):
                     continue
                 c("kw/%s/%s/d%d" % (k, kind, d), "single", dict(d=d, k=k, kind=kind))
                 if not quick or rng.random() < 0.03:
@@ -253,7 +254,7 @@ def conditions(tier, seed, active):
                         continue
                     if d == 3 and k1 == "type" and a in ("str", "arr_str"):
                         continue
-                    if quick and rng.random() < 0.65:
+                    if quick and (a not in CHEAP_KINDS or b not in CHEAP_KINDS or rng.random() < 0.5):
                         continue
                     c("pair/%s:%s+%s:%s/d%d" % (k1, a, k2, b, d), "pairf", dict(d=d, k1=k1, kind1=a, k2=k2, kind2=b), timeout=1800)
     return out
